@@ -28,6 +28,21 @@ fn main() {
         }
         return;
     }
+    if args.len() >= 3 && args[1] == "synth" {
+        // replay: load one voice file through `Engine::load` and synthesize the first corpus labels; outcome on stdout
+        let n: usize = args.get(3).and_then(|s| s.parse().ok()).unwrap_or(2);
+        let labels: Vec<String> = util::corpus().into_iter().take(n).collect();
+        let path = args[2].clone();
+        let r = util::catch(std::panic::AssertUnwindSafe(move || {
+            jbonsai::Engine::load(&[path]).map_err(|e| format!("load error: {e}")).and_then(|e| e.synthesize(labels).map(|w| w.len()).map_err(|e| format!("synthesis error: {e}")))
+        }));
+        match r {
+            Ok(Ok(n)) => println!("ok: {} samples", n),
+            Ok(Err(e)) => println!("{}", e),
+            Err(site) => println!("PANIC at {}", site),
+        }
+        return;
+    }
     if args.len() < 3 || args[1] != "gen" {
         eprintln!("usage: jbharness gen <Cxx> [--seed N] [--tier quick|thorough]");
         std::process::exit(2);
